@@ -295,25 +295,28 @@ fr_int!(i8, 3, "[i8;3]", i8, 0, Fmt::I8);
 
 macro_rules! fr_float {
     ($T:ty, $N:expr, $name:expr) => {
+        fr_float!($T, $N, $name, 1.0);
+    };
+    ($T:ty, $N:expr, $name:expr, $K:expr) => {
         impl Fr for [$T; $N] {
             const NAME: &'static str = $name;
             fn coded(id: usize, n: usize) -> Self {
-                core::array::from_fn(|c| (((n + 1) * 3 + id * 7 + c * 5) % 9) as $T * 0.125 - 0.5)
+                core::array::from_fn(|c| ((((n + 1) * 3 + id * 7 + c * 5) % 9) as $T * 0.125 - 0.5) * $K)
             }
             fn offset() -> $T {
-                0.125
+                0.125 * $K
             }
             fn clip_t() -> $T {
-                0.3
+                0.3 * $K
             }
             fn offset_pc() -> [$T; $N] {
-                core::array::from_fn(|c| c as $T * 0.25 - 0.25)
+                core::array::from_fn(|c| (c as $T * 0.25 - 0.25) * $K)
             }
             fn scale_pc() -> [$T; $N] {
                 core::array::from_fn(|c| [0.5, -1.0, 0.25][c % 3])
             }
             fn map_fn(f: Self) -> Self {
-                f.scale_amp(0.5).offset_amp(0.0625)
+                f.scale_amp(0.5).offset_amp(0.0625 * $K)
             }
             fn zip_fn(a: Self, b: Self) -> Self {
                 core::array::from_fn(|c| if c % 2 == 0 { a[c] } else { b[c] })
@@ -386,6 +389,10 @@ fr_float!(f64, 1, "[f64;1]");
 fr_float!(f32, 2, "[f32;2]");
 fr_float!(f32, 3, "[f32;3]");
 fr_float!(f64, 2, "[f64;2]");
+// magnitude families: the same dyadic lattice scaled by an exact power of two, so that every
+// operation stays exact -- far below any "silence" threshold (2^-200) and far above full scale (2^20)
+fr_float!(f64, 3, "[f64;3] tiny", 6.223015277861142e-61);
+fr_float!(f32, 1, "[f32;1] loud", 1048576.0);
 
 /// a bare wide integer sample used as a mono frame (its own `Frame` impl, not the array one)
 impl Fr for i32 {
